@@ -145,6 +145,17 @@ func runC15(c *ev.Case, ctx *lib.Ctx, sc c15Scenario, lc *logCapture) {
 	for i := range conns {
 		conns[i] = memnet.NewConn()
 		conns[i].Remote = memnet.Addr{Net: "tcp", Str: fmt.Sprintf("10.0.0.%d:999", i+1)}
+		conns[i].Local = memnet.Addr{Net: "tcp", Str: fmt.Sprintf("10.1.2.%d:3868", i+1)}
+	}
+	// a third of the scenarios: the connections that will have a fault are of a kind whose
+	// RemoteAddr() is nil ("the remote network address, if known": what the SCTP transport
+	// the library ships with returns once the association is gone)
+	noAddr := c.I%3 == 2
+	if noAddr {
+		c.Class("faulty-connections-without-remote-address")
+		for _, f := range sc.faults {
+			conns[f.conn].NoRemoteAddr = true
+		}
 	}
 	for i := 0; i < sc.K; i++ {
 		if i == sc.acceptPos {
@@ -317,7 +328,9 @@ func runC15(c *ev.Case, ctx *lib.Ctx, sc c15Scenario, lc *logCapture) {
 			if ok {
 				ok = false
 				for i := 0; i < sc.K; i++ {
-					if faulty[i] && rep.Conn.RemoteAddr().String() == conns[i].Remote.String() {
+					// identified by the local address (every connection of a scenario has its own):
+					// the remote one may be unknown to the transport
+					if faulty[i] && rep.Conn.LocalAddr().String() == conns[i].Local.String() {
 						ok = true
 					}
 				}
